@@ -130,10 +130,11 @@ PROPS["C09"] = dict(engines=["akafka"], design="5/C09",
 
 PROPS["C20"] = dict(engines=["adask"], design="5/C20",
     technique="TLA+ spec DaskFlow (per-call scatter/gather coroutines, tasks finishing in any order; TLC exhaustive incl. liveness) + trace validation of real scatter()...gather() pipelines on an in-process distributed cluster with gated task completion",
-    text="TLC checks ExactlyOnce, Lossless, SameOrder, CbSafe, RcBalance and the liveness property AllDelivered for all task completion orders, for producers that await their emits "
-         "and for buffered segments; for fire-and-forget producers the loss of order is exhibited on purpose (known finding F18); real pipelines (map, map+buffer, map.map, "
-         "accumulate, starmap between scatter and gather) are run with every forced completion order and validated event by event, sink values being mapped to element ids "
-         "through the results of the same segment run locally.",
+    text="TLC checks ExactlyOnce, Lossless, SameOrder, CallOrder, CbSafe, RcBalance and the liveness property AllDelivered for all task completion orders, for producers that await their emits "
+         "and for buffered segments; for fire-and-forget producers gather's call order is checked and the emission order is shown to depend on the unordered scatter calls; real pipelines "
+         "(map, map+buffer, map.map, accumulate, starmap, zip, keyword arguments between scatter and gather) are run with every forced completion order and validated event by event, sink "
+         "values being mapped to element ids through the results of the same segment run locally; segments combining several elements (sliding_window, partition, zip of two sources, "
+         "union of two branches, buffer+sliding_window) are judged by the Observer monitor against their local twin (values, order, callbacks never early / once, held elements).",
     note="Trusted: TLC; the in-process distributed cluster (real event loop: event-gated, no wall-clock assertions); gates implemented with threading.Event inside the submitted functions; "
          "3-4 elements per scenario.")
 
